@@ -71,7 +71,7 @@ THEOREMS["C18"] = [("Flurry.Props.C18", _thms("C18", "cip_panic_unchanged cip_pa
 THEOREMS["C03"] = [("Flurry.Props.C10", ["Flurry.C10.fill_then_forward_then_retire"]), ("Flurry.Props.C03", _thms("C03", "held_references_valid no_touch_after_free free_waits_for_holders retire_only_after_unlink unlinked_not_acquirable unprotected_guard_is_unsafe publication_needs_guard"))]
 THEOREMS["C04"] = [("Flurry.Props.C04", _thms("C04", "freed_at_most_once freed_only_after_guards freed_was_retired retired_is_eventually_freed refused_insert_changes_nothing"))]
 THEOREMS["C07"] = [("Flurry.Props.C07", _thms("C07", "traverse_frozen yields_each_once terminates quiescent_order"))]
-THEOREMS["C11"] = [("Flurry.Props.C11", _thms("C11", "no_lost_wakeup writer_not_blocked_without_readers never_stuck writer_eventually_enabled parked_writer_woken writer_excludes_tree_readers"))]
+THEOREMS["C11"] = [("Flurry.Props.C11", _thms("C11", "no_lost_wakeup writer_not_blocked_without_readers never_stuck writer_eventually_enabled parked_writer_woken writer_excludes_tree_readers accepted_stream_theorems")), ("Flurry.Proto.RwLockMonitor", ["Flurry.Proto.RwLockMonitor.accepted_is_reachable"])]
 THEOREMS["C12"] = [("Flurry.Props.C12", _thms("C12", "roots_in_closure roots_named reach_closed reader_lock_free roots_present reader_never_blocked tree_readers_exclude_writer"))]
 
 TIERS = {
